@@ -826,6 +826,12 @@ do_op(const struct op *o, int idx)
         long at = A_i(o, 6);
 
         if (!path || (!par && slot[s])) return -1;
+        if (path[0] == '/') {
+            /* absolute path: the library links a new top-level node next to `parent` without looking where that is */
+            par = slot[s];
+        } else if (!is_inner(par)) {
+            return -1;
+        }
         if ((at < 1) || (at > 3)) at = 1;       /* STRING / XML / JSON */
         rc = lyd_new_path2(par, ctx, path, val, vl, (LYD_ANYDATA_VALUETYPE)at, opts, &np, &nn);
         if (rc && (np || nn)) n_onn++;
@@ -1145,7 +1151,9 @@ do_op(const struct op *o, int idx)
                     A_i(o, 5) ? &diff : NULL);
         }
         if (slot[s]) slot[s] = home(slot[s]);
-        if (diff) adopt(-1, diff);
+        /* the diff of a validation is released at once (applying it to the tree it came from builds duplicate default
+         * nodes, which is a matter of validation, not of ownership) */
+        lyd_free_all(diff);
         return rc;
     }
 
@@ -1378,6 +1386,8 @@ do_op(const struct op *o, int idx)
             struct lyd_node_any *sa = (struct lyd_node_any *)src;
 
             if (!src || !src->schema || !(src->schema->nodetype & LYD_NODE_ANY) || (src == trg)) return -1;
+            /* an anydata node with a non-tree value cannot be printed (F65: the failing print leaks); witness only */
+            if ((trg->schema->nodetype == LYS_ANYDATA) && (sa->value_type != LYD_ANYDATA_DATATREE) && !A_i(o, 5)) return -1;
             rc = lyd_any_copy_value(trg, &sa->value, sa->value_type);
         } else {
             union lyd_any_value v;
@@ -1385,6 +1395,7 @@ do_op(const struct op *o, int idx)
 
             v.str = A_s(o, 4, NULL);
             if ((vt < 1) || (vt > 3)) return -1;
+            if ((trg->schema->nodetype == LYS_ANYDATA) && v.str && !A_i(o, 5)) return -1;
             rc = lyd_any_copy_value(trg, v.str ? &v : NULL, (LYD_ANYDATA_VALUETYPE)vt);
         }
         return rc;
